@@ -308,6 +308,7 @@ fn run_case(seed: u64, idx: u64, _tier: Tier, out: &mut CaseOut) {
     p.long_permille = 30;
     p.odd_hrefs = rng.chance(1, 3);
     p.nested_pre = rng.chance(1, 2);
+    p.empty_lists = rng.chance(1, 2);
     let with_tables = rng.chance(1, 3);
     if !with_tables {
         p = p.no_tables();
